@@ -311,6 +311,48 @@ fn generate(full: bool) -> String {
             }
         }
     }
+    // (iv-c) derived structs whose members all have call-recording setup handlers: every member's setup, once per
+    //        member (also for two members of the same type), in member order
+    {
+        let shapes: Vec<Vec<(K, usize)>> = vec![
+            vec![(K::WriteCustom, 1), (K::ReadCustom, 0)],
+            vec![(K::ReadCustom, 0), (K::ReadCustom, 0)],
+            vec![(K::WriteCustom, 2), (K::ReadCustom, 1), (K::ReadCustom, 0)],
+            vec![(K::ReadCustom, 1), (K::WriteCustom, 0), (K::ReadCustom, 1)],
+            vec![(K::ReadCustom, 2), (K::Read, 1), (K::WriteCustom, 0), (K::ReadCustom, 2)],
+        ];
+        for sh in &shapes {
+            for form in 0..2 {
+                let mut e = Exp::default();
+                let mut body = String::new();
+                for (i, (k, n)) in sh.iter().enumerate() {
+                    let mut s = String::new();
+                    ty(&T::Leaf(*k, *n), &mut s, &mut e);
+                    if form == 0 {
+                        write!(body, "    pub f{}: {},\n", i, s).unwrap();
+                    } else {
+                        write!(body, "{}, ", s).unwrap();
+                    }
+                }
+                let name = format!("S{}", sid);
+                sid += 1;
+                let prelude = if form == 0 {
+                    format!("#[derive(SystemData)]\n#[allow(dead_code)]\npub struct {}<'a> {{\n{}    pub lt: PhantomData<&'a ()>,\n}}\n", name, body)
+                } else {
+                    format!("#[derive(SystemData)]\n#[allow(dead_code)]\npub struct {}<'a>({}PhantomData<&'a ()>);\n", name, body)
+                };
+                g.case("derive-setup-order", &format!("{}<'a>", name), &e, 3, &prelude);
+                // the same members as a plain tuple
+                let t = T::Tup(sh.iter().map(|(k, n)| T::Leaf(*k, *n)).collect());
+                let mut sx = String::new();
+                let mut e2 = Exp::default();
+                ty(&t, &mut sx, &mut e2);
+                if form == 0 {
+                    g.case("tuple-setup-order", &sx, &e2, 3, "");
+                }
+            }
+        }
+    }
     // generic variants
     for k in [K::Read, K::Write, K::OptRead, K::OptWrite, K::ReadExpect] {
         // type parameter + where clause + second lifetime (PhantomData of a borrowed type)
